@@ -1379,6 +1379,18 @@ class PyExec:
             ref = st.new_obj("$npz", {"file": args[0]})
             st.effects.append(("np.load", ref.oid))
             return [("val", ref, st)]
+        if name in ("isclose", "allclose") and len(args) >= 2:
+            # approximate equality: an uninterpreted relation that is reflexive (nothing else is known)
+            try:
+                x, xr = self.num(args[0])
+                y, yr = self.num(args[1])
+            except Unsupported:
+                return [("val", Sym(z3.Bool(uid("isclose")), "bool"), st)]
+            x = z3.ToReal(x) if z3.is_int(x) else x
+            y = z3.ToReal(y) if z3.is_int(y) else y
+            rel = z3.Function("ISCLOSE", z3.RealSort(), z3.RealSort(), z3.BoolSort())
+            st.pc.append(z3.Implies(x == y, rel(x, y)))
+            return [("val", Sym(rel(x, y), "bool"), st)]
         if name == "Path":
             r = Opaque("Path")
             r.src = args[0] if args else None
@@ -1501,8 +1513,8 @@ class PyExec:
         if c is None:
             raise Unsupported("isinstance class %r" % (cls,))
         if c in (typing.Dict, dict) or getattr(c, "__origin__", None) is dict:
-            if isinstance(v, Ref) and self._clsname(st, v) in ("$dict", "$list"):
-                return self._clsname(st, v) == "$dict"
+            if isinstance(v, Ref) and self._clsname(st, v) in ("$dict", "$list", "$counter"):
+                return self._clsname(st, v) in ("$dict", "$counter")
             return isinstance(v, dict)
         if c in (list, typing.List):
             return isinstance(v, list) or (isinstance(v, Ref) and self._clsname(st, v) == "$list")
